@@ -1604,7 +1604,7 @@ func (c *Ctx) ruleQ6() {
 			}
 		})
 	}
-	c.floor("Q6", "task retirement sites", n, 2)
+	c.floor("Q6", "task retirement sites", n, 1)
 }
 
 // ---------------------------------------------------------------------------
